@@ -66,6 +66,7 @@ type Profile struct {
 	PStartOffline  int // % chance that a target is offline at the start
 	PDevFault      int // % chance of a transient device fault burst after a step
 	PCrash         int // % chance that the scenario contains one crash
+	PStoreFault    int  // per-mille probability that a controller's store call fails with a transient error
 	AllowClash     bool
 	RejectCode     codes.Code // gRPC code the device answers a refused value with (default InvalidArgument)
 	Paths          string // "basic" (few paths, many overwrites) | "rich"
